@@ -223,7 +223,7 @@ class Check:
                     self.axioms[name] = []
                     self.discharged += 1
                     continue
-                ax = re.findall(r"^([A-Za-z_][\w.']*)\s*:", rest, flags=re.M)
+                ax = [a for a in re.findall(r"^([A-Za-z_][\w.']*)\s*:", rest, flags=re.M) if a != "Axioms"]
                 self.axioms[name] = ax
                 bad = [a for a in ax if a not in ALLOWED_AXIOMS and a.split(".")[-1] not in ALLOWED_AXIOMS]
                 if bad:
